@@ -14,9 +14,11 @@
    attacked in the rule-defined successor, incl. en passant), C01_pin_shortcut (rule-level justification of the moves
    accepted without the test), C01_square_attacked, C01_in_check_flag.
    The model is tied to the code by the differential run (legal-move sets, duplicates, castling query on every explored
-   position incl. exhaustive slider / castling families, en-passant discovered-check and boxed-king families). *)
+   position incl. exhaustive slider / castling families, en-passant discovered-check and boxed-king families).    C01_reachable: the hypotheses hold in EVERY position obtained by construction and play (proofs/Reach.v: validity is
+   preserved by every legal move, ValidStep.v), so there the statement is unconditional.
+*)
 Require Import LC.model.Prims LC.model.Board LC.spec.Chess LC.spec.Geometry LC.proofs.MaskInv LC.proofs.C05Proofs
-  LC.proofs.Rays LC.proofs.Pseudo LC.proofs.Safety LC.proofs.PinLemma LC.proofs.C01a LC.proofs.C01b.
+  LC.proofs.Rays LC.proofs.Pseudo LC.proofs.Safety LC.proofs.PinLemma LC.proofs.C01a LC.proofs.C01b LC.proofs.Reach.
 Open Scope N_scope.
 Theorem C01_exact : forall K b, MaskInv b -> DerivedInv b -> valid (abs b) = true ->
   exists l, legal_moves K b = Ok l /\ forall mv, In mv l <-> legal (abs b) mv = true.
@@ -46,3 +48,10 @@ Theorem C01_square_attacked : forall b sq, MaskInv b -> sq < 64 -> is_under_atta
 Proof. exact is_under_attack_spec. Qed.
 Theorem C01_in_check_flag : forall b, MaskInv b -> DerivedInv b -> is_blank (b_checks b) = negb (in_check (abs b) (b_stm b)).
 Proof. exact checks_blank. Qed.
+(* every position obtained by construction from a well-formed description and any sequence of applied moves *)
+Theorem C01_reachable : forall K b, wreachable K b ->
+  exists l, legal_moves K b = Ok l /\ (forall mv, In mv l <-> legal (abs b) mv = true) /\ NoDup l.
+Proof.
+  intros K b R. destruct (wreachable_good K b R) as [[I _] D V _]. destruct (legal_moves_exact K b I D V) as (l & E & H).
+  exists l. split; [exact E|]. split; [exact H|]. exact (legal_moves_nodup K b I D V l E).
+Qed.
